@@ -238,6 +238,31 @@ def parse_cli(out):
             cur = None
     return shots, tables
 
+def cli_corpus():
+    """deterministic programs (outcomes forced by x gates): (name, source, extra CLI args, expected) where expected is a dict of
+    tables, or ('reject', category) / ('exit', status)"""
+    return [
+        ("a @tracked static field is reported when the run ends",
+         "class S { @tracked public static qubit sq; public constructor() -> S { } }\nfunction main() -> void { x(S.sq); measure S.sq; }", ["--shots=3"],
+         {"S.sq": {"1": 3}}),
+        ("an object kept in a static field is reported when the run ends",
+         "class Q { @tracked public qubit q; public static Q keep; public constructor() -> Q { } }\n"
+         "function main() -> void { for (int i = 0; i < 3; i = i + 1) { Q a = new Q(); x(a.q); measure a.q; Q.keep = a; } }", ["--shots=4"], {"Q.q": {"1": 12}}),
+        ("objects referring to each other are reported when the run ends",
+         "class N { @tracked public qubit q; public N other = null; public constructor() -> N { } }\n"
+         "function main() -> void { N a = new N(); N b = new N(); a.other = b; b.other = a; x(a.q); measure a.q; measure b.q; }", ["--shots=2"], {"N.q": {"0": 2, "1": 2}}),
+        ("every declarator of a tracked declaration", "function main() -> void { @tracked qubit a, b; x(b); measure a; measure b; }", ["--shots=3"],
+         {"qubit a": {"0": 3}, "qubit b": {"1": 3}}),
+        ("destroy of a tracked register is refused", "function main() -> void { @tracked qubit[2] r; measure r; destroy r; }", ["--shots=2"], ("reject", "Semantic")),
+        ("@shots(0) is refused", "@shots(0) function main() -> void { @tracked qubit q; measure q; }", [], ("reject", "Parse")),
+        ("--shots=abc is refused without aborting", "function main() -> void { @tracked qubit q; measure q; }", ["--shots=abc"], ("exit", 1)),
+        ("--shots= is refused without aborting", "function main() -> void { @tracked qubit q; measure q; }", ["--shots="], ("exit", 1)),
+        ("--shots=99999999999 is refused without aborting", "function main() -> void { @tracked qubit q; measure q; }", ["--shots=99999999999"], ("exit", 1)),
+        ("--shots=3x is refused", "function main() -> void { @tracked qubit q; measure q; }", ["--shots=3x"], ("exit", 1)),
+        ("@shots wins over --shots", "@shots(2) function main() -> void { @tracked qubit q; x(q); measure q; }", ["--shots=5"], {"qubit q": {"1": 2}}),
+    ]
+
+
 def run(chk):
     quick = chk.tier == "quick"
     chk.proofs()
@@ -311,6 +336,25 @@ def run(chk):
                            (echo_lines, p.echoes * shots if want_echo else 0, echo, shots, provided))
             if ci < 2:
                 chk.sample({"source": src, "args": args[1:], "expected_aggregate": expect})
+        # fixed programs with forced outcomes, through the real CLI
+        for ci, (name, src, extra, want) in enumerate(cli_corpus()):
+            path = os.path.join(tmp, "k%d.bloch" % ci)
+            open(path, "w").write(src)
+            rc, out = vlib.sh([exe] + extra + [path], env={"BLOCH_NO_UPDATE_CHECK": "1"}, timeout=60)
+            out = re.sub(r"\x1b\[[0-9;]*m", "", out)
+            payload = {"case": name, "source": src, "args": extra, "exit_status": rc, "stdout": out[-2000:], "expected": want if isinstance(want, dict) else list(want)}
+            stats["cli_corpus"] = stats.get("cli_corpus", 0) + 1
+            if isinstance(want, tuple) and want[0] == "reject":
+                if rc != 1 or ("%s error" % want[1]) not in out:
+                    chk.report("c17-corpus", payload, "%s: expected a %s error, got status %d" % (name, want[1], rc))
+            elif isinstance(want, tuple):
+                if rc != want[1] or "terminate called" in out:
+                    chk.report("c17-corpus", payload, "%s: expected exit status %d without an abort, got %d" % (name, want[1], rc))
+            else:
+                _, tables = parse_cli(out)
+                got = {v: {o: c for o, c, _ in rows} for v, rows in tables.items()}
+                if rc != 0 or got != want:
+                    chk.report("c17-corpus", payload, "%s: expected tables %s, got %s (status %d)" % (name, want, got, rc))
     finally:
         shutil.rmtree(tmp, ignore_errors=True)
     chk.cov.update({"traces_validated_against_impl": stats["programs"], **stats,
